@@ -201,7 +201,10 @@ def run(tier, seed, replay=None):
                 rep.count("bad_value_was_actually_convertible")
             else:
                 err = o.get("err") or ""
-                if m["prop"] not in err:
+                if err.startswith("no value supplied for ") and err.split()[-1] != m["prop"]:
+                    # the value converted fine; the build failed because some OTHER member is unset: nothing to judge
+                    rep.count("bad_value_convertible_other_member_missing")
+                elif m["prop"] not in err:
                     rep.violation("setter_error_does_not_name_property", m["op"].split(":")[0],
                                   {"prop": m["prop"], "value": m["value"], "err": err}, case=case, doc=m["doc"],
                                   schema=m["schema"])
